@@ -128,6 +128,21 @@ Theorem cw_construction_never_panics :
 Proof. exact cw_build_no_panic. Qed.
 Print Assumptions cw_construction_never_panics.
 
+(* ... and so do the pattern-only entry points (values = input positions converted with
+   V::try_from): a failed conversion is reported as InvalidConversion, everything else is
+   build_with_values *)
+Theorem build_entry_points_never_panic :
+  forall (V : Type) conv k nfb (ps : list (list N)), nfb <> 0 -> 4 * plain_len ps <= U32_MAX - 1 ->
+    ((forall p, In p ps -> Forall (fun b => b < 256) p) ->
+     match bw_build V conv k nfb ps with Ok _ | Err _ => True | _ => False end)
+    /\ match cw_build V conv k nfb ps with Ok _ | Err _ => True | _ => False end.
+Proof.
+  intros V conv k nfb ps Hn Hs. split.
+  - intros Hb. exact (bw_build_entry_no_panic V conv k nfb ps Hn Hb Hs).
+  - exact (cw_build_entry_no_panic V conv k nfb ps Hn Hs).
+Qed.
+Print Assumptions build_entry_points_never_panic.
+
 (* ACCEPTS EVERY VALID COLLECTION: a valid collection is built, or refused with AutomatonScale
    alone (the array or the output table would outgrow u32 / u24) -- never with one of the three
    validity errors, never with a panic.  Together with bw/cw_invalid_collection_rejected this is
